@@ -37,6 +37,48 @@ Proof.
   change (Z.neg p) with (- Z.pos p). rewrite Z.rem_opp_r'. reflexivity.
 Qed.
 
+Lemma zpow_spec x y : 0 <= y -> zpow x y = x ^ y.
+Proof.
+  intros Hy. unfold zpow.
+  destruct (Z.eqb_spec y 0) as [->|Hy0]; [reflexivity|].
+  destruct (Z.eqb_spec x 0) as [->|Hx0]; [rewrite Z.pow_0_l; lia|].
+  destruct (Z.eqb_spec x 1) as [->|Hx1]; [rewrite Z.pow_1_l; lia|].
+  destruct (Z.eqb_spec x (-1)) as [->|Hx2]; [|reflexivity].
+  destruct (Z.even y) eqn:E.
+  - change (-1) with (- (1)). rewrite Z.pow_opp_even by (apply Z.even_spec; assumption). rewrite Z.pow_1_l; lia.
+  - change (-1) with (- (1)). rewrite Z.pow_opp_odd by (apply Z.odd_spec; rewrite <- Z.negb_even, E; reflexivity).
+    rewrite Z.pow_1_l; lia.
+Qed.
+
+Lemma powsign_spec x e : 0 <= e -> powsign x e * Z.abs x ^ e = x ^ e.
+Proof.
+  intros He. unfold powsign.
+  destruct (Z.eqb_spec e 0) as [->|He0]; [rewrite !Z.pow_0_r; lia|].
+  destruct (Z.ltb_spec x 0) as [Hn|Hp]; simpl.
+  - destruct x as [|p|p]; try lia. simpl Z.sgn; simpl Z.abs.
+    change (Z.neg p) with (- Z.pos p).
+    destruct (Z.odd e) eqn:Eo.
+    + rewrite Z.pow_opp_odd by (apply Z.odd_spec; assumption). lia.
+    + rewrite Z.pow_opp_even by (apply Z.even_spec; rewrite <- Z.negb_odd, Eo; reflexivity). lia.
+  - destruct (Z.eqb_spec x 0) as [->|Hx0].
+    + simpl. rewrite Z.pow_0_l by lia. reflexivity.
+    + replace (Z.sgn x) with 1 by lia. rewrite Z.abs_eq by lia. lia.
+Qed.
+
+Lemma zshr_floor x k : 0 <= k -> zshr x k = x / 2 ^ k.
+Proof.
+  intros Hk. unfold zshr.
+  destruct (Z.ltb_spec (Z.log2 (Z.abs x)) k) as [Hl|Hl]; [|reflexivity].
+  assert (Hp : 0 < 2 ^ k) by (apply Z.pow_pos_nonneg; lia).
+  assert (Hb : Z.abs x < 2 ^ k).
+  { destruct (Z.eq_dec x 0) as [->|Hx]; [simpl; lia|].
+    apply Z.log2_lt_pow2; lia. }
+  set (p := 2 ^ k) in *. clearbody p.
+  destruct (Z.ltb_spec x 0).
+  - apply Z.div_unique with (r := x + p); lia.
+  - symmetry. apply Z.div_small; lia.
+Qed.
+
 Section LeafSpecs.
   Variable uop : opk -> Z -> Z -> outcome Z.
   Variable uop_s : opk -> Z -> Z -> outcome Z.
@@ -177,5 +219,115 @@ Section LeafSpecs.
     - rewrite leaf_u_irem_spec by lia. simpl.
       destruct (Z.eqb_spec x 0); [reflexivity|]. simpl. f_equal.
       rewrite Z.rem_opp_l'. lia.
+  Qed.
+
+  (* ---- BigInt shifts ---- *)
+  Lemma leaf_ishl_spec x k : ishl ushift x k = zsem FamI OpShl x k.
+  Proof.
+    unfold ishl, sgn_o. rewrite H_ushift by (auto; lia). simpl.
+    destruct (k <? 0); [reflexivity|]. simpl. f_equal. unfold zshl.
+    destruct (Z.eqb_spec (Z.abs x) 0); destruct (Z.eqb_spec x 0); try lia;
+      try (rewrite Z.mul_assoc, sgn_mul_abs; reflexivity).
+  Qed.
+
+  Lemma tz_lt_spec m k : 0 < m -> 0 <= k -> tz_lt m k = negb (m mod 2 ^ k =? 0).
+  Proof.
+    intros Hm Hk. unfold tz_lt. destruct (Z.ltb_spec (Z.log2 m) k) as [Hl|Hl]; [|reflexivity].
+    assert (m < 2 ^ k) by (apply Z.log2_lt_pow2; lia).
+    rewrite Z.mod_small by lia. destruct (Z.eqb_spec m 0); [lia|reflexivity].
+  Qed.
+
+  Lemma leaf_ishr_spec x k : ishr uop_s ushift x k = zsem FamI OpShr x k.
+  Proof.
+    unfold ishr. rewrite H_ushift by (auto; lia). simpl.
+    destruct (Z.ltb_spec k 0) as [Hk|Hk]; [reflexivity|]. simpl.
+    rewrite !zshr_floor by lia.
+    assert (Hp : 0 < 2 ^ k) by (apply Z.pow_pos_nonneg; lia).
+    unfold shr_round_down.
+    destruct (Z.ltb_spec x 0) as [Hn|Hn]; simpl.
+    - rewrite tz_lt_spec by lia.
+      destruct (Z.ltb_spec 0 k) as [Hk0|Hk0]; simpl.
+      + set (p := 2 ^ k) in *. clearbody p.
+        destruct (Z.eqb_spec (Z.abs x mod p) 0) as [E|E]; simpl.
+        * f_equal. replace (Z.sgn x) with (-1) by lia.
+          assert (Z.abs x = p * (Z.abs x / p)) by (pose proof (Z.div_mod (Z.abs x) p); lia).
+          apply Z.div_unique with (r := 0); lia.
+        * rewrite H_uadd_scalar by (try apply Z.div_pos; lia). simpl. f_equal.
+          replace (Z.sgn x) with (-1) by lia.
+          pose proof (Z.div_mod (Z.abs x) p ltac:(lia)) as D.
+          pose proof (Z.mod_pos_bound (Z.abs x) p Hp) as Bd.
+          apply Z.div_unique with (r := p - Z.abs x mod p); lia.
+      + assert (k = 0) by lia; subst k. simpl. rewrite Z.div_1_r. f_equal. rewrite Z.div_1_r. apply sgn_mul_abs.
+    - f_equal. rewrite Z.abs_eq by lia.
+      destruct (Z.eq_dec x 0) as [->|Hx0]; [simpl; reflexivity|].
+      replace (Z.sgn x) with 1 by lia. lia.
+  Qed.
+
+  (* ---- pow ---- *)
+  Lemma leaf_upow_s_ref_spec x e : 0 <= x -> 0 <= e -> e < 2 ^ 128 -> upow_s_ref upow_s x e = zsem FamU OpPow x e.
+  Proof.
+    intros Hx He Hb. unfold upow_s_ref. destruct (Z.eqb_spec e 0) as [->|E]; [|apply H_upow_scalar; assumption].
+    simpl. rewrite andb_false_r. reflexivity.
+  Qed.
+  Lemma leaf_upow_b_ref_spec x e : 0 <= x -> 0 <= e -> upow_b_ref upow_b x e = zsem FamU OpPow x e.
+  Proof.
+    intros Hx He. unfold upow_b_ref.
+    destruct (Z.eqb_spec x 1) as [->|Hx1]; simpl.
+    - unfold zpow; simpl. destruct (e =? 0); reflexivity.
+    - destruct (Z.eqb_spec e 0) as [->|He0]; simpl.
+      + rewrite andb_false_r. reflexivity.
+      + destruct (Z.eqb_spec x 0) as [->|Hx0]; [|apply H_upow_big; assumption].
+        simpl. unfold zpow. destruct (Z.eqb_spec e 0); [lia|reflexivity].
+  Qed.
+  Lemma ipow_spec up x e : 0 <= e ->
+    up (Z.abs x) e = zsem FamU OpPow (Z.abs x) e -> ipow up x e = zsem FamI OpPow x e.
+  Proof.
+    intros He Hu. unfold ipow. rewrite Hu. unfold zsem. rewrite Z.abs_involutive.
+    destruct ((2 <=? Z.abs x) && (2 ^ 128 <=? e)); [reflexivity|]. unfold omap, bind. f_equal.
+    rewrite !zpow_spec by assumption. apply powsign_spec; assumption.
+  Qed.
+
+  (* ---- scalar %= &BigUint, all 12 primitive types (the signed macro as FIXED in dc3abd4) ---- *)
+  Lemma leaf_rem_assign_spec t s u :
+    slo t <= s <= shi t -> 0 <= u -> srem_assign t s u = zsem FamU OpRem s u.
+  Proof.
+    intros Hs Hu. unfold srem_assign, umax. simpl.
+    pose proof (srange t) as R.
+    assert (Hlo : slo t = if ssigned t then - 2 ^ (sbits t - 1) else 0) by reflexivity.
+    assert (Hhi : shi t = if ssigned t then 2 ^ (sbits t - 1) - 1 else 2 ^ sbits t - 1) by reflexivity.
+    assert (Hpow : 2 ^ sbits t = 2 * 2 ^ (sbits t - 1)).
+    { replace (sbits t) with (Z.succ (sbits t - 1)) at 1 by lia. apply Z.pow_succ_r. destruct t; simpl; lia. }
+    destruct (Z.ltb_spec (2 ^ sbits t - 1) u) as [Hbig|Hfit].
+    - (* the divisor does not fit the unsigned type: |s| < u, the scalar is unchanged *)
+      destruct (Z.eqb_spec u 0); [lia|]. f_equal.
+      assert (Z.abs s < u) by (destruct (ssigned t); lia).
+      destruct (Z.ltb_spec s 0).
+      + replace s with (- Z.abs s) at 2 by lia. rewrite Z.rem_opp_l', Z.rem_small; lia.
+      + rewrite Z.rem_small; lia.
+    - destruct (Z.eqb_spec u 0) as [E|E]; [reflexivity|].
+      destruct (ssigned t) eqn:Sg.
+      + f_equal.
+        assert (Hr : 0 <= Z.abs s mod u < u) by (apply Z.mod_pos_bound; lia).
+        assert (Hr2 : Z.abs s mod u <= Z.abs s) by (apply Z.mod_le; lia).
+        assert (Hrem : Z.rem s u = if s <? 0 then - (Z.abs s mod u) else Z.abs s mod u).
+        { destruct (Z.ltb_spec s 0).
+          - replace s with (- Z.abs s) at 1 by lia. rewrite Z.rem_opp_l', Z.rem_mod_nonneg; lia.
+          - rewrite Z.abs_eq by lia. rewrite Z.rem_mod_nonneg; lia. }
+        rewrite Hrem. set (r := Z.abs s mod u) in *.
+        destruct (Z.eq_dec r (2 ^ (sbits t - 1))) as [Emin|Emin].
+        * (* only s = MIN with a divisor above 2^(N-1): r as iN = MIN, MIN.wrapping_neg() = MIN *)
+          assert (s = slo t) by lia.
+          assert (W : wrap t r = slo t).
+          { unfold wrap. rewrite Hlo, Emin.
+            replace (2 ^ (sbits t - 1) - - 2 ^ (sbits t - 1)) with (0 + 1 * 2 ^ sbits t) by lia.
+            rewrite Z.mod_add by lia. rewrite Z.mod_0_l by lia. lia. }
+          rewrite W. destruct (Z.ltb_spec s 0); [|lia].
+          unfold wrap. rewrite Hlo.
+          replace (- - 2 ^ (sbits t - 1) - - 2 ^ (sbits t - 1)) with (0 + 1 * 2 ^ sbits t) by lia.
+          rewrite Z.mod_add by lia. rewrite Z.mod_0_l by lia. lia.
+        * rewrite (wrap_id t r) by lia.
+          destruct (Z.ltb_spec s 0); [|reflexivity].
+          apply wrap_id; lia.
+      + f_equal. rewrite Z.rem_mod_nonneg; lia.
   Qed.
 End LeafSpecs.
